@@ -176,16 +176,33 @@ func run(c string) (obs string) {
 	}
 	defer os.RemoveAll(tmp)
 	base, _ := filepath.EvalSymlinks(tmp)
-	for _, d := range []string{"dst", "outside", "cwd"} {
+	for _, d := range []string{"dst", "outside", "cwd", "dstx"} { // dstx: a sibling whose name starts with the destination's
 		_ = os.Mkdir(filepath.Join(base, d), 0o755)
 	}
 	_ = os.WriteFile(filepath.Join(base, "outside", "secret"), []byte("payload-0"), 0o644)
 	_ = os.WriteFile(filepath.Join(base, "cwd", "f"), []byte("payload-1"), 0o644)
+	_ = os.WriteFile(filepath.Join(base, "dstx", "secret"), []byte("payload-3"), 0o644)
 	old, _ := os.Getwd()
 	_ = os.Chdir(filepath.Join(base, "cwd"))
 	defer os.Chdir(old)
 	ops := strings.Split(c, ";")
 	hd := strings.Fields(ops[0])
+	if hd[0] == "corrupt" { // a stored zip entry whose bytes no longer match its checksum: extraction must report an error
+		var buf bytes.Buffer
+		w := zip.NewWriter(&buf)
+		fw, _ := w.CreateHeader(&zip.FileHeader{Name: "a/data", Method: zip.Store})
+		_, _ = fw.Write([]byte("payload-" + hd[1] + "-some-more-bytes"))
+		_ = w.Close()
+		raw := buf.Bytes()
+		if i := bytes.Index(raw, []byte("payload-")); i >= 0 {
+			raw[i+hx.Atoi(hd[2])%(8+len(hd[1]))] ^= 0x20
+		}
+		zr, zerr := zip.NewReader(bytes.NewReader(raw), int64(len(raw)))
+		if zerr != nil {
+			return "ok=0 (unreadable)"
+		}
+		return "ok=" + hx.B2i(xzip.Extract(zr, filepath.Join(base, "dst")) == nil)
+	}
 	if hd[0] == "efbig" { // an entry that cannot be written in full (file size limit): extraction must report an error
 		return runTooBig(base, hd)
 	}
@@ -305,13 +322,13 @@ func genPath(r *hx.Rand, escapes bool) string {
 // link targets: inside the destination, outside it, absolute (below base) or relative (at most as many ".." as stay below base)
 func genTarget(r *hx.Rand, depth int) (bool, string) {
 	if r.Chance(1, 3) {
-		return true, []string{"outside", "outside/secret", "dst", "dst/a", "cwd", "dst/b/c", "nowhere"}[r.Intn(7)]
+		return true, []string{"outside", "outside/secret", "dst", "dst/a", "cwd", "dst/b/c", "nowhere", "dstx", "dstx/secret"}[r.Intn(9)]
 	}
 	var p []string
 	for k := r.Intn(depth + 1); k > 0; k-- { // never above base: that would leave the modelled world
 		p = append(p, "..")
 	}
-	p = append(p, []string{"outside", "outside/secret", "a", "b", "a/b", "x", "nowhere/deep", "dst/a", "."}[r.Intn(9)])
+	p = append(p, []string{"outside", "outside/secret", "a", "b", "a/b", "x", "nowhere/deep", "dst/a", ".", "dstx", "dstx/secret"}[r.Intn(11)])
 	return false, strings.Join(p, "/")
 }
 
@@ -327,7 +344,44 @@ func gen(r *hx.Rand, n int) []string {
 			out = append(out, fmt.Sprintf("efbig %s %d %d", kind, limit, []int{10, 3000, 70000}[r.Intn(3)]))
 			continue
 		}
+		if i%50 == 48 {
+			out = append(out, fmt.Sprintf("corrupt %d %d", 10+r.Intn(80), r.Intn(30)))
+			continue
+		}
 		ops := []string{fmt.Sprintf("%s %s", kind, []string{"777", "777", "755", "700"}[r.Intn(4)])}
+		if i%4 == 1 {
+			// composed attempts: a link planted by the archive (or already there), then an entry of some type that goes through it
+			link := names[r.Intn(len(names))]
+			abs, target := true, []string{"outside", "dstx", "cwd", "outside/secret", "dstx/secret"}[r.Intn(5)]
+			if r.Bool() {
+				abs, target = false, "../"+target
+			}
+			if r.Chance(1, 3) {
+				ops = append(ops, fmt.Sprintf("pre s dst/%s %s %s", link, hx.B2i(abs), target))
+			} else {
+				ops = append(ops, fmt.Sprintf("e s %s 777 0 %s %s", link, hx.B2i(abs), target))
+			}
+			other := names[r.Intn(len(names))]
+			for k := r.Range(1, 3); k > 0; k-- {
+				switch x := r.Intn(6); {
+				case x == 0:
+					ops = append(ops, fmt.Sprintf("e r %s/%s 644 %d 0 -", link, []string{"x", "secret", "a/b"}[r.Intn(3)], 10+r.Intn(80)))
+				case x == 1:
+					ops = append(ops, fmt.Sprintf("e d %s/%s 755 0 0 -", link, []string{"made", "made/deep", "a"}[r.Intn(3)]))
+				case x == 2:
+					ops = append(ops, fmt.Sprintf("e s %s/%s 777 0 0 ../x", link, []string{"l", "c"}[r.Intn(2)]))
+				case x == 3 && kind == "tar":
+					ops = append(ops, fmt.Sprintf("e l %s 644 0 0 %s/%s", other, link, []string{"secret", "f", "x"}[r.Intn(3)]))
+					ops = append(ops, fmt.Sprintf("e r %s 644 %d 0 -", other, 10+r.Intn(80)))
+				case x == 4:
+					ops = append(ops, fmt.Sprintf("e r %s 644 %d 0 -", link, 10+r.Intn(80)))
+				default:
+					ops = append(ops, fmt.Sprintf("e r %s 600 %d 0 -", other, 10+r.Intn(80)))
+				}
+			}
+			out = append(out, strings.Join(ops, ";"))
+			continue
+		}
 		free := append([]string(nil), names...)
 		for k := r.Intn(3); k > 0; k-- { // pre-existing content of the destination, each under its own name
 			j := r.Intn(len(free))
